@@ -15,6 +15,7 @@ RULE = ("Each case builds a real hio Server (or ServerTls) and 1-3 Clients (Clie
         "server.service() and net delivery while faults are on, then drains with faults off. Oracle after every step: what each "
         "side's rxbs holds is a prefix of everything passed to tx() for that direction so far; after the drain it is equal; "
         "each wire log equals the bytes the (fake) kernel / TLS engine actually accepted from and returned to that endpoint. "
+        "A third of the clients are given the application's own txbs/rxbs (queued by extending, read from there); in a fifth of the cases the server starts listening late and the clients (reconnectable, tymeout 0.5 or 2) queue before they are connected and go through refused attempts and retry periods in advancing tyme. "
         "Non-trivial: >= 1 partial send and >= 1 short read fired on a connection that carried >= 2 payloads. "
         "Distinct: digest of configuration + payload sizes + the executed actor/fault sequence.")
 COMPONENTS = dict(real=["hio.core.tcp.clienting.Client/ClientTls", "hio.core.tcp.serving.Server/ServerTls/Remoter/RemoterTls",
@@ -68,6 +69,11 @@ def run_case(tape, tier):
     with netlab.Lab(tape, res, tls=tls, bs=bs, capacity=cap, rates=rates, ports=(50001, 50002, 50003),
                     tymth=lambda: tyme[0]) as lab:
         net = lab.net
+        if late:
+            # every retry takes a new port: with the usual tiny pool two clients end up on each other's former ports and the
+            # server's table (keyed by address) then holds the wrong client's abandoned connection under a live client's
+            # address, which is C11's ground, not the byte stream's
+            net.fresh_ports = True
         lab.make_server(open_=not late)
         opened = [not late]
 
